@@ -58,6 +58,12 @@ type Workload struct {
 	Weight int      // total weight relative to the built-in mix (which sums to about 35)
 	// Tune may adjust the generated knobs (e.g. force a runtime into genesis).
 	Tune func(r *core.Rand, k *ChainKnobs)
+	// ArgGen, when set, draws op.Arg of an extension transaction (instead of a uniform 16-bit value).
+	ArgGen func(r *core.Rand, kind string) int
+	// MinTxRate, when set, is a lower bound of the per-height transaction rate of a run.
+	MinTxRate int
+	// ExtraHeights, when set, is added to the number of heights of a run.
+	ExtraHeights func(k *ChainKnobs) int
 }
 
 var workloads = map[string]*Workload{}
@@ -69,6 +75,16 @@ type BaseExtra struct {
 	Kinds   []string
 	WideArg bool // draw op.Arg from 0..65535 instead of 0..63
 	Tune    func(r *core.Rand, k *ChainKnobs)
+	// ArgGen, when set, draws op.Arg of the extra's transactions.
+	ArgGen func(r *core.Rand, kind string) int
+	// OwnRand makes the extra draw all its choices (selection, tuning, per-operation use) from a
+	// PRNG of its own that is derived from the scenario's salt, instead of the scenario's PRNG:
+	// adding such an extra leaves the scenarios of the runs that do not select it unchanged, and
+	// changes only the replaced operations in those that do.
+	OwnRand bool
+	// Share, when set, makes the extra supply about 1/Share of the transactions of a run that
+	// selected it (default 6).
+	Share int
 }
 
 var baseExtras []*BaseExtra
@@ -163,17 +179,23 @@ func (e Engine) Generate(r *core.Rand, tier core.Tier) *core.Scenario {
 	// applications: roothash.SubmitMsg, registry registrations, ...) is enabled in a third of the
 	// runs and then supplies about a sixth of the transactions.
 	var extras []*BaseExtra
+	var extraRand []*core.Rand
 	if wl == nil {
 		for _, x := range baseExtras {
 			num := 1
 			if e.Prop == "C08" {
 				num = 2 // failed transactions of every method are this property's subject
 			}
-			if r.Chance(num, 3) {
+			xr := r
+			if x.OwnRand {
+				xr = core.NewRand(core.Derive(core.Hash64([]byte(k.Gen.Salt)), "base-extra/"+x.Name, 0))
+			}
+			if xr.Chance(num, 3) {
 				if x.Tune != nil {
-					x.Tune(r, &k)
+					x.Tune(xr, &k)
 				}
 				extras = append(extras, x)
+				extraRand = append(extraRand, xr)
 			}
 		}
 	}
@@ -182,22 +204,39 @@ func (e Engine) Generate(r *core.Rand, tier core.Tier) *core.Scenario {
 	if tier == core.Thorough {
 		heights = r.Range(20, 90)
 	}
+	if wl != nil && wl.ExtraHeights != nil {
+		heights += wl.ExtraHeights(&k)
+	}
 	extremes := profile == "extremes"
 	w := profileWeights(profile, r)
 	nsign := k.Gen.Entities + k.Gen.Accounts
 	txRate := r.Range(0, 5)
+	if wl != nil && txRate < wl.MinTxRate {
+		txRate = wl.MinTxRate
+	}
 	for h := 0; h < heights; h++ {
 		for i, n := 0, r.Range(0, txRate); i < n; i++ {
 			op := TxOp{Kind: txKinds[r.Pick(w)], From: r.Intn(nsign), To: r.Intn(nsign), Amt: genAmount(r, extremes), Arg: r.Intn(64)}
 			if wl != nil && len(wl.Kinds) > 0 && r.Intn(35+wl.Weight) < wl.Weight {
 				op.Kind = wl.Kinds[r.Intn(len(wl.Kinds))]
 				op.Arg = r.Intn(1 << 16)
+				if wl.ArgGen != nil {
+					op.Arg = wl.ArgGen(r, op.Kind)
+				}
 			}
-			for _, x := range extras {
-				if r.Chance(1, 6) {
-					op.Kind = x.Kinds[r.Intn(len(x.Kinds))]
+			for xi, x := range extras {
+				xr := extraRand[xi]
+				share := 6
+				if x.Share > 0 {
+					share = x.Share
+				}
+				if xr.Chance(1, share) {
+					op.Kind = x.Kinds[xr.Intn(len(x.Kinds))]
 					if x.WideArg {
-						op.Arg = r.Intn(1 << 16)
+						op.Arg = xr.Intn(1 << 16)
+					}
+					if x.ArgGen != nil {
+						op.Arg = x.ArgGen(xr, op.Kind)
 					}
 				}
 			}
